@@ -22,13 +22,20 @@ class C07(c01.C01):
     required_counters = ('models.judged', 'fx_net_positions_not_zero_in_numeraire.judged',
                          'fx_position_not_declared_cross_currency_flows.judged', 'cross_currency_credit.judged',
                          'refusal.judged',
-                         'models.judged.with_two_foreign_suppliers_of_one_market')
+                         'models.judged.with_two_foreign_suppliers_of_one_market',
+                         'retry_after_refusal.judged')
     which = ('fx', 'ledger', 'zone')
 
     def n_cases(self, tier):
         return 32 if tier == 'quick' else 1200
 
     def make_case(self, rng, idx, tier):
+        if idx % 16 == 5:
+            n_ = 6
+            return {'kind': 'retry_after_refusal', 'gift': rng.choice([2.5, 4.0, 1.0]), 'inc': rng.random() < 0.5,
+                    'domestic_first': rng.random() < 0.5, 'attempts': rng.choice([1, 1, 2]),
+                    'xr_cad': [rng.choice([1.0, 1.25, 0.8, 2.0]) for _ in range(n_)],
+                    'xr_usd': [rng.choice([1.0, 0.5, 1.6, 2.5]) for _ in range(n_)]}
         case = c01.gen_case(rng, idx, tier, emphasis='fx')
         if idx % 8 == 2:
             # one market with suppliers from two other currency zones (unequal shares)
@@ -49,7 +56,73 @@ class C07(c01.C01):
                 case['spec'] = M.gen_spec(rng, n_zones=2, ext=True)
         return case
 
+    def run_retry_after_refusal(self, case):
+        """A cross-currency flow registered without an external sector is refused; the caller then creates the
+        ExternalSector on the same model and builds again: value must be conserved in what is then produced."""
+        import contextlib, io
+        from sfc_models.models import Model, Country
+        from sfc_models.sector import Sector
+        from sfc_models.external import ExternalSector
+        from vf import monitors
+        rec = monitors.Recorder()
+        T = 4
+        xr = {'CAD': case['xr_cad'], 'USD': case['xr_usd']}
+        mod = Model()
+        ca = Country(mod, 'CA', 'CA', currency='CAD')
+        us = Country(mod, 'US', 'US', currency='USD')
+        a, c2, d2 = (Sector(ca, n, n, has_F=True) for n in ('A', 'C', 'D'))
+        b = Sector(us, 'B', 'b', has_F=True)
+        a.AddVariable('GIFT', 'gift', repr(case['gift']))
+        c2.AddVariable('PAY', 'domestic payment', '1.5')
+        if case['domestic_first']:
+            mod.RegisterCashFlow(c2, d2, 'PAY')
+        mod.RegisterCashFlow(a, b, 'GIFT', is_income_source=case['inc'], is_income_dest=not case['inc'])
+        if not case['domestic_first']:
+            mod.RegisterCashFlow(c2, d2, 'PAY')
+        mod.MaxTime = T
+        refused = 0
+        with contextlib.redirect_stdout(io.StringIO()):
+            for _ in range(case['attempts']):
+                try:
+                    mod.main()
+                    rec.violate('cross_currency_flow_without_external_sector_not_refused', {})
+                    return {'verdict': 'violated', 'shape': 'retry_after_refusal', 'counters': rec.counters, 'violations': rec.violations}
+                except Exception:
+                    refused += 1
+            ext = ExternalSector(mod)
+            ext['XR'].SetExogenous('CAD', list(xr['CAD']))
+            ext['XR'].SetExogenous('USD', list(xr['USD']))
+            try:
+                mod.main()
+            except Exception as e:
+                return {'verdict': 'notjudged', 'shape': 'retry_after_refusal|' + type(e).__name__, 'counters': rec.counters,
+                        'obs': {'err': repr(e)[:200]}}
+        V = mod.EquationSolver.TimeSeries
+        rec.count('retry_after_refusal.judged')
+        for k in range(1, T + 1):
+            gift = V['CA_A__GIFT'][k]
+            dA = V['CA_A__F'][k] - V['CA_A__F'][k - 1]
+            dB = V['US_B__F'][k] - V['US_B__F'][k - 1]
+            cad = sum(V[n][k] - V[n][k - 1] for n in ('CA_A__F', 'CA_C__F', 'CA_D__F')) + V['EXT_FX__NET_CAD'][k]
+            usd = dB + V['EXT_FX__NET_USD'][k]
+            rate = xr['CAD'][k] / xr['USD'][k]
+            checks = [('sender_not_debited_exactly_the_amount', dA, -gift), ('receiver_not_credited_amount_times_cross_rate', dB, gift * rate),
+                      ('money_created_or_destroyed_in_zone', cad, 0.0), ('money_created_or_destroyed_in_zone', usd, 0.0),
+                      ('fx_net_positions_not_zero_in_numeraire',
+                       V['EXT_FX__NET_CAD'][k] * xr['CAD'][k] + V['EXT_FX__NET_USD'][k] * xr['USD'][k], 0.0)]
+            for kind, got, exp in checks:
+                if abs(got - exp) > 1e-6 * max(1.0, abs(exp)):
+                    rec.violate(kind, {'k': k, 'got': got, 'expected': exp, 'refusals_before': refused,
+                                       'domestic_flow_registered_first': case['domestic_first']})
+                    break
+            if rec.violations:
+                break
+        return {'verdict': 'violated' if rec.violations else 'held', 'nontrivial': True, 'shape': 'retry_after_refusal',
+                'counters': rec.counters, 'violations': rec.violations, 'obs': {'refusals': refused}}
+
     def run_case(self, case):
+        if case.get('kind') == 'retry_after_refusal':
+            return self.run_retry_after_refusal(case)
         spec = case['spec']
         cross = self.cross_flows(spec)
         if case.get('twin_without_ext') and cross and not spec.get('row') and not any(z['gov']['form'] in ('gold', 'gold_cb') for z in spec['zones']):
